@@ -55,9 +55,13 @@ func VerifResolveConfigsEnvironment(dict map[string]any, env types.Mapping) {
 	resolveConfigsEnvironment(dict, env)
 }
 
-func VerifImportResources(source, target map[string]any) error { return importResources(source, target) }
+func VerifImportResources(source, target map[string]any) error {
+	return importResources(source, target)
+}
 
-func VerifLoadIncludeConfig(source any) ([]types.IncludeConfig, error) { return loadIncludeConfig(source) }
+func VerifLoadIncludeConfig(source any) ([]types.IncludeConfig, error) {
+	return loadIncludeConfig(source)
+}
 
 func VerifProcessExtensions(dict map[string]any, extensions map[string]any) (map[string]any, error) {
 	return processExtensions(dict, tree.NewPath(), extensions)
